@@ -295,6 +295,40 @@ def run(ck, facts, tier):
                              "arm %s of a vars_cmp match mixes the derivative arrays of %s without aligning them (only Arc/ValueEquivalent lists are identical in order)"
                              % (sorted(names), sorted(b[1] for b in raw)), where, sample="arm %s reads arrays of %s" % (sorted(names), sorted((b[1], b[2] or "operand") for b in bases)))
 
+    # ---------------- R03.7 result carries the union of the operands' names
+    r7 = ck.rule("R03.7", "every binary operator (+ - * / %) on two dual numbers returns, on every path, a number whose variable list is the union list of both operands "
+                          "(on an Arc/ValueEquivalent path an operand's own list, which is then identical); with a float operand, the dual operand's list", floor=100)
+    from rules import c01
+    for num in (D1, D2):
+        for r, op, ks in c01.impls(facts, num):
+            if len(ks) != 2 or op not in ("add", "sub", "mul", "div", "rem"):
+                continue
+            where = "%s:%d" % (r["file"], r["line"])
+            vals = [cel.operand("uv"[i], num) if k == "D" else Poly.atom("uv"[i]) for i, k in enumerate(ks)]
+            try:
+                got = cel.Ev(facts).apply_fn(r["fn"], vals, 0)
+            except Unsupported as e:
+                ck.fail(r7, short(r["fn"]), "rule could not be established (%s)" % e, where)
+                continue
+            dvars = [v.fields["vars"] for v in vals if isinstance(v, Rec)]
+            want = dvars[0]
+            for d in dvars[1:]:
+                want = cel.union_vars(want, d)
+            ok = True
+            bad = None
+            for guards, leaf in c01.alternatives(got):
+                if not isinstance(leaf, Rec):
+                    ok, bad = False, leaf
+                    break
+                vv = leaf.fields.get("vars")
+                fast = any(isinstance(g, tuple) and g and g[0] == "arm" and (set(g[1]) if isinstance(g[1], tuple) else {g[1]}) <= FAST for g in guards)
+                good = cel.vkey(vv) == cel.vkey(want) or (fast and any(cel.vkey(vv) == cel.vkey(d) for d in dvars))
+                if not good:
+                    ok, bad = False, vv
+                    break
+            ck.check(r7, short(r["fn"]), ok, "the result of %s can carry the variable list %r instead of the union of the operands' lists" % (op, bad), where,
+                     sample="vars = union(u.vars, v.vars)" if len(dvars) == 2 else "vars = the dual operand's list")
+
     # ---------------- R03.6 equality
     r6 = ck.rule("R03.6", "PartialEq for Dual/Dual2: false when the values differ, otherwise element-wise equality of the gradient (and Hessian) arrays under the same "
                           "alignment discipline; comparisons with a float promote it to a variable-free number (absent name = zero derivative through the gather default)", floor=6)
